@@ -418,7 +418,8 @@ class TypeTransformer:
                 if data.lower() in self.TRUE_VALUES:
                     return 1
             elif isinstance(data, t):
-                return data
+                # e.g. [True] -> True: re-create like the direct branch above (True -> 1)
+                return t(data)
 
         try:
             data = Decimal(data)
